@@ -207,7 +207,7 @@ def check_demand(n: int, k0: int, k1: int, k2: int, a: int, b: int, xs: List[int
     pre: len(xs) <= B.N
     pre: 0 <= k <= len(xs) + 1
     pre: B.FREE == 1 or as_source == ((k0 + k1) % 2 == 0)
-    pre: h.in_shard(k0 + 10 * (k1 % 2))
+    pre: h.in_shard(k0 + 10 * (k1 % 4))
     post: _
     """
     # second/third stage kinds: K1 = 4 means {callable, Filter, Slice, Count}
